@@ -10,26 +10,41 @@ Abstract two-node model (Model/HsRace.lean) with an adversarial scheduler: start
 either side, delivery of ANY in-flight message ANY number of times in ANY order, loss, connection-manager
 swap and tunnel deletion at any time — all schedules, unbounded (induction over the step list).
 
-Proved: the two SAFETY parts, for all schedules INCLUDING connection-manager traffic checks (`check`: the
-makeTrafficDecision model of C30, Model/ConnMgr.lean, applied to one tunnel with scheduler-chosen in/out flags),
-and BOUNDED PROGRESS of those checks: they never add a tunnel, a tunnel that sees no inbound traffic is marked
-at one check and deleted at the next, inbound traffic clears the mark. The LIVENESS part stays open (C31_partial):
+Everything the code takes from crypto/rand or a clock (handshake identity, indexes, the outcome of the
+ErrExistingHostInfo clock comparison) is chosen by the scheduler of the abstract model.
 
-  quiescent_single (NOT proved): from any reachable state, if no further message is lost and the
-  connection-manager ticks continue, after a bounded number of ticks both sides hold exactly one tunnel
-  `t` / `t.mirror`.
-  As written it is FALSE on this model for an idle network: after a simultaneous initiation without any data
-  traffic each side deletes its non-primary tunnel and keeps its own primary — X the tunnel it initiated, Y the
-  tunnel it initiated — two single tunnels that are NOT mirrors, stable under every further idle check
-  (`idle_mismatch_is_stable`). Convergence needs traffic: with traffic on the primaries the side allowed to swap
-  follows the peer's primary and the other tunnel dies on both sides within two checks
-  (`race_converges_with_traffic`, one schedule); in the code the idle mismatch is resolved later by recv_error once
-  traffic starts. (The scheduler of this model chooses the traffic flags freely; in the code hostinfo.out starts true, so
-  the first check of every tunnel sends a test packet — an idle schedule of exactly this shape needs that exchange
-  to be lost.) Missing for a proof: a model of which tunnel carries traffic (in/out flags derived from the
-  primaries, test packets and their replies, recv_error) and a termination measure over it.
+Proved on the abstract model: the two SAFETY parts, for all schedules INCLUDING connection-manager traffic checks
+(`check`: the makeTrafficDecision model of C30, Model/ConnMgr.lean, applied to one tunnel with scheduler-chosen in/out
+flags); BOUNDED PROGRESS of those checks; and LIVENESS under the explicit fairness assumption "traffic follows the
+primaries" (`quiescent_single_with_traffic`): from EVERY state — in particular after every race schedule prefix — whose
+non-swapping side's primary is unmarked and mirrored on the swapping side, every quiet-phase schedule of three fair
+rounds (the checks of a round in any order) ends with one tunnel per side, mirrors of each other.
+
+  quiescent_single, full strength (NOT provable): from any reachable state, if no further message is lost and the
+  connection-manager ticks continue, after a bounded number of ticks both sides hold exactly one tunnel `t` / `t.mirror`.
+  As written it is FALSE on this model for an idle network (`idle_mismatch_is_stable`): without traffic each side keeps
+  the tunnel it initiated — two single tunnels that are NOT mirrors, stable under every further idle check. It is also
+  false without the `Ready` hypothesis: if the peer deleted the mirror of a side's primary, both sides can end with no
+  tunnel at all (in the code the next packet then starts a new handshake; recv_error is not modelled).
+
+SIMULATION (node model → abstract model). The node model (Model/HsManager.lean, `Node.step`) is the one the
+correspondence harness ties to the real code. `Rel ax ay nx ny s` relates two nodes with single-address certificates
+to an abstract state (tunnel lists = main-hostmap lists of the peer address, primary first; pending handshake once its
+first packet exists; pendingDeletion marks; addresses). Forward simulation is proved per step kind
+(`node_step_simulated_partial`): connection-manager swap, tunnel deletion, traffic check (delete / swap / mark /
+tryRehandshake), starting a handshake, delivery of a first message (fresh, duplicate = cached answer, rejected =
+ErrExistingHostInfo / ErrLocalIndexCollision / own address), delivery of a reply (completing, duplicate, late,
+unmatched); loss is the empty step. Each is matched by at most one abstract step, so the abstract invariants — hence
+usable_on_complete and at_most_one_swapper — transfer to every run of these kinds from a related pair
+(`node_usable_on_complete_partial`, `node_at_most_one_swapper_partial`). NOT covered (the `_partial`): (1) handleOutbound
+— the first transmission (buildStage0Packet), retransmission and give-up of `tick` / `trig`, whose abstract steps are
+`start` / `resend` / `giveUp`; (2) the bookkeeping of the symbolic network (Model/HsNet.lean): that the handle table
+returns for every transmission in the log the contents recorded when the packet was made — the delivery guard
+`PEv.guard` assumes the delivered message is in the abstract inbox; (3) certificates with several addresses, config
+reloads (blocklist), inside packets (`send`) and deliveries to a node other than the addressee.
 -/
-import Nebula.Lemmas.HsRaceLive
+import Nebula.Lemmas.HsRaceQuiet
+import Nebula.Lemmas.HsSimPair
 import Nebula.Lemmas.HsManagerStep
 
 namespace Nebula.Props.C31
@@ -144,12 +159,90 @@ theorem live_tunnel_survives_check (n : Node) (li : Nat) (hi : HostInfo) (outT :
 
 end
 
+/-! ### simulation: node model → abstract model -/
+
+section
+open Nebula.HsManager Nebula.Lemmas.HsSim
+
+/-- FORWARD SIMULATION per step kind (`PEv`: swap, delete, traffic check, start, delivery of a first message, delivery
+of a reply — duplicates and rejected deliveries included; loss = no step): one event of the NODE model on X (`onX`) or Y
+keeps the pair related to the abstract state reached by at most one abstract step. Partial: see the header for the
+kinds not covered (handleOutbound, the network's handle table, multi-address certificates). -/
+theorem node_step_simulated_partial {ax ay : Addr} {nx ny : Node} {s : St} (r : Rel ax ay nx ny s) (onX : Bool) (e : PEv)
+    (g : if onX then e.guard nx ay s.x.inbox else e.guard ny ax s.y.inbox) :
+    ∃ steps : List Step, steps.length ≤ 1 ∧
+      if onX then Rel ax ay (nx.step (e.ev ay)).1 ny (s.run steps) else Rel ax ay nx (ny.step (e.ev ax)).1 (s.run steps) :=
+  rel_step r onX e g
+
+/-- the starting point: two freshly initialised nodes with single-address certificates are related to `St.init` -/
+theorem node_init_related (cx cy : Cfg) (ax ay : Addr) (hx : cx.myAddrs = [ax]) (hy : cy.myAddrs = [ay]) :
+    Rel ax ay (Node.init cx) (Node.init cy) (St.init ax ay) := rel_init cx cy ax ay hx hy
+
+/-- usable_on_complete on the NODE model: in every related pair — every pair reached from a related pair by steps of the
+covered kinds — each tunnel a node holds as initiator has its counterpart (indexes crossed, same first packet, responder)
+in the peer's main hostmap, unless the peer removed it itself -/
+theorem node_usable_on_complete_partial {ax ay : Addr} {nx ny : Node} {s : St} (r : Rel ax ay nx ny s) :
+    (∀ t, t ∈ nx.main.getList ay → t.initiator = true →
+      (∃ u, u ∈ ny.main.getList ax ∧ u.localIndex = t.remoteIndex ∧ u.remoteIndex = t.localIndex ∧ u.pkt0 = t.pkt0 ∧
+        u.initiator = false) ∨ (absTun t).mirror ∈ s.y.removed) ∧
+    (∀ t, t ∈ ny.main.getList ax → t.initiator = true →
+      (∃ u, u ∈ nx.main.getList ay ∧ u.localIndex = t.remoteIndex ∧ u.remoteIndex = t.localIndex ∧ u.pkt0 = t.pkt0 ∧
+        u.initiator = false) ∨ (absTun t).mirror ∈ s.x.removed) := by
+  have h := usable_transfer s nx ny ax ay r.srx r.sry r.inv
+  have key : ∀ (u t : HostInfo), t.initiator = true → absTun u = (absTun t).mirror →
+      u.localIndex = t.remoteIndex ∧ u.remoteIndex = t.localIndex ∧ u.pkt0 = t.pkt0 ∧ u.initiator = false := by
+    intro u t ht e
+    simp only [absTun, Tun.mirror, Tun.mk.injEq] at e
+    exact ⟨e.1, e.2.1, encH_inj.mp e.2.2.1, by rw [e.2.2.2, ht]; rfl⟩
+  constructor
+  · intro t ht hin
+    rcases h.1 t ht hin with ⟨u, hu, e⟩ | h'
+    · exact Or.inl ⟨u, hu, key u t hin e⟩
+    · exact Or.inr h'
+  · intro t ht hin
+    rcases h.2 t ht hin with ⟨u, hu, e⟩ | h'
+    · exact Or.inl ⟨u, hu, key u t hin e⟩
+    · exact Or.inr h'
+
+/-- at_most_one_swapper on the NODE model: along every run of the covered kinds from a related pair, the swaps the two
+nodes performed (counted by the matching abstract steps) are all on one side -/
+theorem node_at_most_one_swapper_partial {ax ay : Addr} {nx ny : Node} {s : St} (r : Rel ax ay nx ny s) (hne : ax ≠ ay) :
+    s.x.swaps = 0 ∨ s.y.swaps = 0 := one_swapper_transfer r hne
+
+end
+
+/-! ### liveness under "traffic follows the primaries" -/
+
+/-- quiescent_single_with_traffic: see the header. `Ready s`, `coversRound s b` are decidable predicates on the state
+at the start of the quiet phase and on the schedule; `qrun` runs connection-manager checks whose traffic flags are
+derived from the two primaries (`qcheck_is_check`: each is a `check` step of the model). -/
+theorem quiescent_single_with_traffic (s : St) (hr : Ready s = true) (b1 b2 b3 : List (Bool × Tun))
+    (c1 : coversRound s b1 = true) (c2 : coversRound s b2 = true) (c3 : coversRound s b3 = true) :
+    ∃ t, (qrun (qrun (qrun s b1) b2) b3).x.tunnels = [t] ∧ (qrun (qrun (qrun s b1) b2) b3).y.tunnels = [t.mirror] :=
+  quiet_converges s hr b1 b2 b3 c1 c2 c3
+
+/-- the same after EVERY race schedule prefix (all start / delivery orders, duplications, losses, deletions, checks) -/
+theorem quiescent_single_after_any_prefix (ax ay : Nat) (steps : List Step) (b1 b2 b3 : List (Bool × Tun))
+    (hr : Ready ((St.init ax ay).run steps) = true)
+    (c1 : coversRound ((St.init ax ay).run steps) b1 = true) (c2 : coversRound ((St.init ax ay).run steps) b2 = true)
+    (c3 : coversRound ((St.init ax ay).run steps) b3 = true) :
+    ∃ t, (qrun (qrun (qrun ((St.init ax ay).run steps) b1) b2) b3).x.tunnels = [t] ∧
+         (qrun (qrun (qrun ((St.init ax ay).run steps) b1) b2) b3).y.tunnels = [t.mirror] :=
+  quiet_converges _ hr b1 b2 b3 c1 c2 c3
+
+/-- once the two primaries are the two ends of one tunnel, two fair rounds suffice and no mark matters -/
+theorem mirrored_primaries_converge_in_two_rounds (s : St) (m : Tun) (hx : s.x.tunnels.head? = some m)
+    (hy : s.y.tunnels.head? = some m.mirror) (xnd : s.x.tunnels.Nodup) (ynd : s.y.tunnels.Nodup)
+    (b2 b3 : List (Bool × Tun)) (c2 : coversRound s b2 = true) (c3 : coversRound s b3 = true) :
+    (qrun (qrun s b2) b3).x.tunnels = [m] ∧ (qrun (qrun s b2) b3).y.tunnels = [m.mirror] :=
+  mirrored_primaries_converge s s m m.mirror ⟨hx, hy, rfl, xnd, ynd⟩ (fun _ h => h) (fun _ h => h) b2 b3 c2 c3
+
 -- non-vacuity: the simultaneous-initiation race — both start, both first messages delivered, both replies
 -- delivered: each side holds two tunnels, each initiator tunnel mirrored on the other side, and the
 -- primaries DIFFER (X's primary is the tunnel it initiated, Y's the one it initiated): exactly the
 -- situation shouldSwapPrimary resolves, and only side X (address 1 < 2) may swap.
 def race : List Step :=
-  [.start true, .start false, .deliver false 0, .deliver true 0, .deliver true 1, .deliver false 1]
+  [.start true 1 2, .start false 3 4, .deliver false 0 5, .deliver true 0 6, .deliver true 1 0, .deliver false 1 0]
 
 example : ((St.init 1 2).run race).x.tunnels.length = 2 ∧ ((St.init 1 2).run race).y.tunnels.length = 2 := by decide
 example : (((St.init 1 2).run race).x.tunnels.head?.map Tun.mirror) ≠ ((St.init 1 2).run race).y.tunnels.head? := by decide
@@ -184,5 +277,20 @@ theorem race_converges_with_traffic :
     let s := (St.init 1 2).run (race ++ busy)
     s.x.tunnels.length = 1 ∧ s.y.tunnels.length = 1 ∧ s.x.tunnels.head?.map Tun.mirror = s.y.tunnels.head? ∧
     s.x.swaps = 1 ∧ s.y.swaps = 0 := by decide
+
+-- non-vacuity of quiescent_single_with_traffic: the state after the simultaneous-initiation race is `Ready` (Y, the side
+-- that may not swap, has an unmarked primary whose mirror X holds), and a round that checks Y's tunnels first and X's
+-- afterwards — the order in which Y's primary is marked before X follows — is fair
+def raceState : St := (St.init 1 2).run race
+def roundYX : List (Bool × Tun) :=
+  (raceState.y.tunnels.map (fun t => (false, t))) ++ (raceState.x.tunnels.map (fun t => (true, t)))
+
+example : Ready raceState = true := by decide
+example : coversRound raceState roundYX = true := by decide
+example : (qrun (qrun (qrun raceState roundYX) roundYX) roundYX).x.tunnels.length = 1 ∧
+    (qrun (qrun (qrun raceState roundYX) roundYX) roundYX).x.tunnels.head?.map Tun.mirror =
+    (qrun (qrun (qrun raceState roundYX) roundYX) roundYX).y.tunnels.head? := by decide
+-- the idle mismatch is NOT a quiet phase of this kind: with no traffic at all the flags are not those of `qcheck`
+example : Ready ((St.init 1 2).run (race ++ idle)) = false := by decide
 
 end Nebula.Props.C31
